@@ -12,11 +12,11 @@ CONSTANTS
   WakeAfterPush = TRUE
   Overflow = FALSE
   Hosts <- BothHosts
-  Muts = {"none"}
+  Muts = {"oldPollBlocking"}
   Ops = {"o1"}
   Timers = {}
   Jobs = {"j1"}
-  Owner <- OwnQJ
+  Owner <- OwnQO
   AnyTurn = TRUE
 SPECIFICATION XSpec
-INVARIANTS XTypeOK PendingBound TypeOK FindingStrict
+INVARIANTS XTypeOK PendingBound TypeOK CtlOldPollBlocking
